@@ -249,7 +249,7 @@ func runC09(e *Engine, r *Report) {
 		// contiguity: an expected-index test exists
 		entIndex := e.Field("raftpb", "Entry", "Index")
 		okExp := false
-		for _, f := range append([]*ssa.Function{impl}, impl.AnonFuncs...) {
+		for _, f := range e.regionOf(impl, 1) {
 			forEachInstr(f, func(in ssa.Instruction) {
 				if b, ok := in.(*ssa.BinOp); ok && (b.Op.String() == "!=" || b.Op.String() == "==") && (fieldV(entIndex)(b.X) || fieldV(entIndex)(b.Y)) {
 					okExp = true
